@@ -20,6 +20,10 @@ func main() {
 		r = net.C03(c)
 	case "C06":
 		r = net.C06(c)
+	case "C07":
+		r = net.C07(c)
+	case "C20":
+		r = net.C20(c)
 	default:
 		fmt.Fprintln(os.Stderr, "worker-net: unknown property", c.Prop)
 		os.Exit(2)
